@@ -1036,6 +1036,14 @@ class Emitter:
                 out.append(Line('  ' + t, lazy=tail_lazy, kind='refdef-title'))
             else:
                 out[-1].text += ' ' + t
+        elif getattr(nd, 'empty_title', False) and not self.opt.canonical:
+            # 4.7 / 6.3: a title may be empty - the definition stands, the link just has no title
+            t = {'"': '""', "'": "''", '(': '()'}[nd.tq]
+            if nd.title_nl:
+                out.append(Line('  ' + t, lazy=tail_lazy, kind='refdef-title'))
+            else:
+                out[-1].text += ' ' + t
+            self.stat('definition-with-empty-title')
         if tail_lazy and len(out) > 1:
             self.stat('definition-continued-lazily')
         self.gen.defs.append((nd.label, nd.dest, nd.title))
